@@ -286,7 +286,27 @@ func TestC16(t *testing.T) {
 					}()
 					for ; i < per; i++ {
 						n = 1 + rng.Intn(16)
-						if i&1 == 0 {
+						if i%3 == 2 {
+							// a real instruction padded to exactly 15 and 16 bytes with redundant legacy prefixes:
+							// the architectural 15-byte limit must hold whatever window the caller passes
+							f := own.funcs[rng.Intn(len(own.funcs))]
+							p := f.off + rng.Intn(f.end-f.off)
+							ri, rerr := ref.Decode(own.text[p:min(p+16, len(own.text))], 64)
+							l := 1
+							if rerr == nil {
+								l = ri.Len
+							}
+							total := 15 + rng.Intn(2)
+							if l > total {
+								l = total
+							}
+							pre := []byte{0x66, 0x2e, 0x3e, 0x26, 0x36, 0x64, 0x65, 0x67, 0xf2, 0xf3}
+							n = 0
+							for ; n < total-l; n++ {
+								buf[n] = pre[rng.Intn(len(pre))]
+							}
+							n += copy(buf[n:], own.text[p:p+l])
+						} else if i&1 == 0 {
 							for k := 0; k < n; k += 8 {
 								v := rng.Uint64()
 								for b := 0; b < 8 && k+b < n; b++ {
